@@ -223,8 +223,13 @@ def resolve_scope(text, m, scope):
     a, b = 0, len(text)
     for want in scope:
         w = _norm(want)
-        found = [blk for blk in blocks(text, m, a, b) if blk.header.startswith(w) or
-                 re.sub(r'^(pub(\([a-z]+\))? )', '', blk.header).startswith(w)]
+        if w.startswith('~'):
+            # `~TEXT`: the block whose header ENDS with TEXT (multi-line generic impl headers share their beginning)
+            w = w[1:].strip()
+            found = [blk for blk in blocks(text, m, a, b) if blk.header.endswith(w)]
+        else:
+            found = [blk for blk in blocks(text, m, a, b) if blk.header.startswith(w) or
+                     re.sub(r'^(pub(\([a-z]+\))? )', '', blk.header).startswith(w)]
         if len(found) != 1:
             raise AnchorError('scope %r matched %d blocks' % (want, len(found)))
         a, b = found[0].open + 1, found[0].end - 1
